@@ -36,9 +36,17 @@ impl TruthKey {
         let data = rng.bytes(*offs.last().unwrap() as usize);
         let mut h = [0u8; 32];
         rng.fill(&mut h);
+        // mostly the production prefix; sometimes an empty, 1-byte, non-ASCII or long one (all legal Key values)
+        let prefix = match rng.usize_below(12) {
+            0 | 1 => String::new(),
+            2 => "x".to_string(),
+            3 => "pré/fix-ü".to_string(),
+            4 => "p".repeat(rng.urange(2, 60)),
+            _ => "default".to_string(),
+        };
         TruthKey {
             key: Key {
-                prefix: "default".to_string(),
+                prefix,
                 hash: MerkleHash::from(&h),
             },
             offs,
